@@ -217,6 +217,12 @@ func body(r *sim.Run) {
 	s.ver = &world.Verifier{L: s.L}
 	vdesc := "ledger"
 	if s.vmode == vRing {
+		if t.Chance(40) {
+			// O's key response carries no valid_until_ts: its current keys
+			// have no validity period, so nothing they signed may be accepted
+			s.O.OmitValidUntil = true
+			r.Fault("key_without_validity_period")
+		}
 		seeded := t.Weighted([]int{5, 4}) == 1
 		if seeded {
 			for p, e := range published(s.O, time.Now()) {
